@@ -230,7 +230,7 @@ pub fn cost_file_cases(rng: &mut Rng, thorough: bool) -> Vec<String> {
         push(&mut cs, "tnd", &t[..cut]);
     }
     for (t1, far) in [(80u16, 1000u32), (200, 5000), (1000, 100)] {
-        // (a position record to row 65534 under a SAUCE width of 1000 is the recorded finding file:tnd:slow-or-huge)
+        // (a position record to row 65534 under a SAUCE width of 1000 is the recorded finding file:tnd:huge)
         let mut t = vec![24u8];
         t.extend(b"TUNDRA24");
         t.push(1);
